@@ -54,7 +54,10 @@ func (r *Recorder) writeBlob(name string, data []byte) {
 }
 
 // StateBytes declares (once per distinct content) a state blob and returns its id.
-func (r *Recorder) StateBytes(f ForkID, data []byte) string {
+func (r *Recorder) StateBytes(f ForkID, data []byte) string { return r.stateDecl(f, data, nil) }
+
+// stateDecl declares the blob; when the hash-tree-root zrnt computes for it is known it is appended as `root=<hex>`.
+func (r *Recorder) stateDecl(f ForkID, data []byte, root *common.Root) string {
 	h := sha256.Sum256(append([]byte{'S', byte(f)}, data...))
 	if id, ok := r.blobID[h]; ok {
 		return id
@@ -66,12 +69,17 @@ func (r *Recorder) StateBytes(f ForkID, data []byte) string {
 	r.blobID[h] = id
 	r.stateFk[id] = f
 	r.stateRaw[id] = data
-	r.Line("state %s %s data/%s", id, f, file)
+	if root != nil {
+		r.Line("state %s %s data/%s root=%s", id, f, file, hex.EncodeToString(root[:]))
+	} else {
+		r.Line("state %s %s data/%s", id, f, file)
+	}
 	return id
 }
 
 func (r *Recorder) State(st common.BeaconState) string {
-	return r.StateBytes(StateFork(st), EncodeState(st))
+	root := StateRoot(st)
+	return r.stateDecl(StateFork(st), EncodeState(st), &root)
 }
 
 // BlockBytes declares a SignedBeaconBlock blob of the given fork.
